@@ -41,7 +41,7 @@ INFO = {
 }
 EXPECTED_PROBES = ("quiet_with_raise", "no_interaction_empty_input", "help_after_path", "version_after_path",
                    "ansi_forced_on_plain_stream", "no_ansi_on_tty", "switch_after_dashdash", "early_placement",
-                   "verbosity_v", "verbosity_vv", "verbosity_vvv", "question_read")
+                   "verbosity_v", "verbosity_vv", "verbosity_vvv", "question_read", "separator_is_first_token")
 
 SWITCHES = {
     "help": ["-h", "--help"], "quiet": ["-q", "--quiet"], "v": ["-v"], "vv": ["-vv"], "vvv": ["-vvv"],
@@ -114,7 +114,10 @@ def gen(S, tier):
     dd_tail = []
     if use_tail:
         dd_tail = [w.pick(sum(SWITCHES.values(), [])) for _ in range(w.randint(1, 3))]
+    x = S("extension")
+    leading_dd = [x.pick(sum(SWITCHES.values(), [])) for _ in range(x.randint(1, 2))] if x.chance(0.04) else None
     return {
+        "leading_dd": leading_dd,
         "app": spec, "path": path, "tail": tail, "exp_args": exp_args, "exp_opts": exp_opts, "hid": cmd["hid"],
         "switches": switches, "dd_tail": dd_tail, "use_dd": use_tail, "plain_target": plain_target, "help_line": help_line,
         "tty_out": c.chance(0.5), "tty_err": c.chance(0.5),
@@ -148,6 +151,10 @@ def condition(sc, v):
 
 
 def _tokens(sc):
+    if sc.get("leading_dd"):
+        # nothing but the separator and, behind it, words that look like switches: the default command
+        # receives them as plain arguments
+        return ["--"] + list(sc["leading_dd"])
     base = list(sc["path"]) + list(sc["tail"])
     ins = {}
     for k, sp, pos in sc["switches"]:
@@ -267,6 +274,19 @@ def _run(sc):
         res.violate("escapes", type(raised).__name__, "run raised %r for %r" % (raised, tokens))
         return res
 
+    if sc.get("leading_dd"):
+        res.probe("separator_is_first_token")
+        res.nontrivial = True
+        res.states.add(("leading_dd", tuple(sc["leading_dd"]), sc["tty_out"], sc["tty_err"]))
+        if not o and not e:
+            res.violate("dashdash", "quiet_behind_leading_separator", "run of %r wrote nothing at all" % (tokens,))
+        for name, data, tty in (("stdout", o, sc["tty_out"]), ("stderr", e, sc["tty_err"])):
+            if not tty and "\x1b[" in data:
+                res.violate("dashdash", "ansi_behind_leading_separator", "%s of %r carries escape sequences on a plain stream" % (name, tokens))
+        for s_ in seen:
+            if s_["quiet"] or s_["verbosity"] != 0 or not s_["interactive"]:
+                res.violate("dashdash", "io_state_behind_leading_separator", "IO state %r for %r" % (s_, tokens))
+        return res
     has = lambda k: k in kinds
     level = 0
     for k in kinds:
